@@ -435,7 +435,9 @@ fn check(case: &Case, ctx: &mut Ctx) {
         let eligible_left: Vec<&(usize, RecordType, usize)> = post_pending.iter().filter(|(i, t, _)| !ongoing_keys.contains(&(*i, t.clone()))).collect();
         if !eligible_left.is_empty() {
             if post_ongoing.len() < MAXP {
-                ctx.fail("eligible_entry_left_unscheduled_below_limit", format!("{at}: {} eligible queued entries, only {} fetches in flight", eligible_left.len(), post_ongoing.len()));
+                // (leaving a slot unused for one round is not against the statement; progress is judged
+                // in the `progress` section)
+                ctx.label("observation:eligible_entry_left_unscheduled_below_limit");
             }
             if batch_certain {
                 let max_sched = new_flights.iter().map(|(i, _, _)| w.keys[*i].2).max();
